@@ -40,6 +40,9 @@ type C14Op struct {
 	Hold   bool           `json:"hold,omitempty"`    // open/change: the analysis this notification starts is held until a release op ...
 	HoldAt int            `json:"hold_at,omitempty"` // ... 0: at its first statement; 1: before it reads its first included file; 2: after it has read its first included file
 	LIFO   bool           `json:"lifo,omitempty"`    // release: last held first
+	// release: all held analyses are let go at the same moment and run side by side (otherwise one
+	// after the other, each to completion)
+	Together bool `json:"together,omitempty"`
 	// config: the refresh waits with the client's answer in hand until the next request stands between
 	// computing and remembering its document's posting templates; that request then waits for the refresh
 	Rendezvous bool `json:"rendezvous,omitempty"`
@@ -51,6 +54,16 @@ type C14Op struct {
 	// config: the client's answer to this refresh travels until one more refresh (a later one) is done,
 	// so the server gets the answers in the opposite order of its questions
 	AnswerLate bool `json:"answer_late,omitempty"`
+	// config: Replace — this configuration replaces the client's (what it does not name, the user has
+	// removed; the server keeps what it had for those settings). PinFirst — the history goes on only
+	// when the client's answer to this refresh is in hand; it travels until the answer to the NEXT
+	// refresh is in hand too, and that one travels until this refresh is done: both questions are asked
+	// before either answer is applied, and the answers are applied in the order of the questions. A
+	// Replace without PinFirst takes effect only when the PinFirst before it succeeded (otherwise the
+	// configuration is laid over the previous one as usual): the answer to the earlier question is
+	// then certain to be the earlier configuration.
+	Replace  bool `json:"replace,omitempty"`
+	PinFirst bool `json:"pin_first,omitempty"`
 	AtEnd            bool `json:"at_end,omitempty"` // request: on the last line of the document's current text (the blank line after its last header)
 }
 
@@ -81,6 +94,9 @@ type c14Hooks struct {
 	meet2    chan struct{}   // non-nil: a refresh waits at config.bumped for a request to reach templates.computed
 	atBumped bool            // a refresh stands at config.bumped
 	lateFor  int             // >0: the next answer travels until cfgDone reaches this count
+	ov       int             // PinFirst: 1 armed, 2 the first answer is in hand and held, 0 otherwise
+	ovFirst  chan struct{}   // closed to let the first answer go on
+	ovBase   int             // cfgDone when armed
 }
 
 // goid returns the id of the calling goroutine (from the header of its stack trace).
@@ -118,6 +134,17 @@ func (h *c14Hooks) stopHolding() {
 	h.mu.Lock()
 	held := h.held
 	h.held, h.holdWant, h.armed = nil, map[string]int{}, map[uint64]int{}
+	h.mu.Unlock()
+	for _, ch := range held {
+		close(ch)
+	}
+}
+
+// releaseAll lets every held analysis run at once.
+func (h *c14Hooks) releaseAll() {
+	h.mu.Lock()
+	held := h.held
+	h.held = nil
 	h.mu.Unlock()
 	for _, ch := range held {
 		close(ch)
@@ -180,6 +207,32 @@ func (h *c14Hooks) handler(name string, args ...string) {
 		h.inflight--
 		delete(h.armed, goid())
 	case "config.answer":
+		if h.enabled && h.ov == 1 {
+			h.ov = 2
+			ch := h.ovFirst
+			h.mu.Unlock()
+			select {
+			case <-ch:
+			case <-time.After(5 * time.Second):
+			}
+			return
+		}
+		if h.enabled && h.ov == 2 {
+			h.ov = 0
+			close(h.ovFirst)
+			target := h.ovBase + 1
+			h.mu.Unlock()
+			for deadline := time.Now().Add(2 * time.Second); time.Now().Before(deadline); {
+				h.mu.Lock()
+				done := h.cfgDone >= target
+				h.mu.Unlock()
+				if done {
+					break
+				}
+				time.Sleep(20 * time.Microsecond)
+			}
+			return
+		}
 		if target := h.lateFor; h.enabled && target > 0 {
 			h.lateFor = 0
 			h.mu.Unlock()
@@ -252,7 +305,7 @@ func (h *c14Hooks) handler(name string, args ...string) {
 func (h *c14Hooks) reset(delays []int, enabled bool) {
 	h.mu.Lock()
 	h.delays, h.next, h.cfgStart, h.cfgDone, h.inflight, h.enabled = delays, 0, 0, 0, 0, enabled
-	h.holdWant, h.holdAt, h.armed, h.held, h.meet, h.meet2, h.atBumped, h.lateFor = map[string]int{}, map[string]int{}, map[uint64]int{}, nil, nil, nil, false, 0
+	h.holdWant, h.holdAt, h.armed, h.held, h.meet, h.meet2, h.atBumped, h.lateFor, h.ov = map[string]int{}, map[string]int{}, map[uint64]int{}, nil, nil, nil, false, 0, 0
 	h.mu.Unlock()
 }
 
@@ -323,6 +376,7 @@ type c14Run struct {
 	responses []string // canonical response per request op ("" for other ops)
 	compared  []bool   // whether the response may be compared with the sequential replay
 	overlap   int      // requests issued while a background goroutine was in flight
+	replaced  map[int]bool // config ops whose configuration replaced the client's (Replace took effect)
 }
 
 func c14Text(c *C14Case, env *wsEnv, doc, alt int) string {
@@ -332,8 +386,9 @@ func c14Text(c *C14Case, env *wsEnv, doc, alt int) string {
 	return m.Render(c.Alts[doc][alt-1]).Text
 }
 
-func c14Execute(c *C14Case, sequential bool) (*c14Run, []ev.Discrepancy) {
-	run := &c14Run{}
+func c14Execute(c *C14Case, sequential bool, conc *c14Run) (*c14Run, []ev.Discrepancy) {
+	run := &c14Run{replaced: map[int]bool{}}
+	pinnedOK := false
 	var ds []ev.Discrepancy
 	c14h.reset(c.Delays, !sequential)
 	verifhook.SetHandler(c14h.handler)
@@ -423,6 +478,9 @@ func c14Execute(c *C14Case, sequential bool) (*c14Run, []ev.Discrepancy) {
 					if err := settle(1); err != nil { // every analysis to be held has arrived
 						panic(err)
 					}
+					if op.Together && !sequential {
+						c14h.releaseAll()
+					}
 					for c14h.releaseOne(op.LIFO) {
 						if err := settle(1); err != nil {
 							panic(err)
@@ -430,9 +488,16 @@ func c14Execute(c *C14Case, sequential bool) (*c14Run, []ev.Discrepancy) {
 					}
 				case "config":
 					// a client's configuration is a whole: this change is laid over what it had before
+					replace := op.Replace && (op.PinFirst || pinnedOK)
+					if sequential && conc != nil {
+						replace = conc.replaced[si]
+					}
+					run.replaced[si] = replace
 					cfg := map[string]any{}
 					for k, v := range cumCfg {
-						cfg[k] = v
+						if !replace {
+							cfg[k] = v
+						}
 					}
 					for k, v := range op.Config {
 						sec, isSec := v.(map[string]any)
@@ -456,6 +521,14 @@ func c14Execute(c *C14Case, sequential bool) (*c14Run, []ev.Discrepancy) {
 						c14h.meet = make(chan struct{})
 						c14h.mu.Unlock()
 					}
+					if op.PinFirst && !sequential {
+						pinnedOK = false
+						c14h.mu.Lock()
+						if c14h.cfgDone == c14h.cfgStart {
+							c14h.ov, c14h.ovFirst, c14h.ovBase = 1, make(chan struct{}), c14h.cfgDone
+						}
+						c14h.mu.Unlock()
+					}
 					if op.AnswerLate && !sequential {
 						c14h.mu.Lock()
 						c14h.lateFor = c14h.cfgDone + 1 // held until one more refresh (the next one) is done
@@ -472,6 +545,26 @@ func c14Execute(c *C14Case, sequential bool) (*c14Run, []ev.Discrepancy) {
 					h.C.SetConfig(cfg)
 					_ = h.ChangeConfiguration()
 					cfgCalls++
+					if op.PinFirst && !sequential {
+						for deadline := time.Now().Add(2 * time.Second); time.Now().Before(deadline); {
+							c14h.mu.Lock()
+							pinnedOK = c14h.ov == 2
+							c14h.mu.Unlock()
+							if pinnedOK {
+								break
+							}
+							time.Sleep(20 * time.Microsecond)
+						}
+						if !pinnedOK {
+							c14h.mu.Lock()
+							if c14h.ov == 2 {
+								pinnedOK = true
+							} else {
+								c14h.ov = 0
+							}
+							c14h.mu.Unlock()
+						}
+					}
 				case "request":
 					cfgDone, inflight := c14h.snapshot()
 					if inflight > 0 || busyBefore {
@@ -560,7 +653,7 @@ func ask2(h *lspx.Harness, kind, uri string, p refclient.Pos) (string, error) {
 
 func c14Check(c *C14Case) ([]ev.Discrepancy, int) {
 	before := raceLogSize()
-	conc, ds := c14Execute(c, false)
+	conc, ds := c14Execute(c, false, nil)
 	if len(ds) > 0 {
 		return ds, conc.overlap
 	}
@@ -590,7 +683,7 @@ func c14Check(c *C14Case) ([]ev.Discrepancy, int) {
 	if len(ds) > 0 {
 		return ds, conc.overlap
 	}
-	seq, ds2 := c14Execute(c, true)
+	seq, ds2 := c14Execute(c, true, conc)
 	if len(ds2) > 0 {
 		return ds2, conc.overlap
 	}
@@ -658,6 +751,18 @@ func genC14(t *rapid.T, p *gen.Profile) *C14Case {
 			alts = append(alts, gen.GenFileIncluding(t, p, pools, jo, i, gen.IncludeTargets(ws.Files[i].Journal, i, n)))
 		}
 		c.Alts = append(c.Alts, alts)
+	}
+	// some included files have lines no journal has: the loader keeps their syntax errors with the
+	// parsed file it remembers, and every resolution that reaches the file gets them
+	faulty := map[int]bool{}
+	for i := 1; i < n; i++ {
+		if rapid.IntRange(0, 2).Draw(t, "faulty") == 0 {
+			faulty[i] = true
+			for _, l := range []string{"    orphaned:posting  1 EUR", "2024-13-45 no such day", "= = ="}[:rapid.IntRange(1, 3).Draw(t, "nfaults")] {
+				raw := l
+				ws.Files[i].Journal.Entries = append(ws.Files[i].Journal.Entries, m.Entry{Raw: &raw, Blank: 1})
+			}
+		}
 	}
 	steps := rapid.IntRange(4, 10).Draw(t, "steps")
 	c.Ops = append(c.Ops, C14Op{Op: "open", Doc: 0, Wait: rapid.IntRange(0, 2).Draw(t, "w0")})
@@ -896,6 +1001,46 @@ func genC14(t *rapid.T, p *gen.Profile) *C14Case {
 			C14Op{Op: "config", Doc: d, Config: mk(v2), Wait: 2},
 			C14Op{Op: "request", Doc: d, Kind: "formatting", Wait: 2},
 			C14Op{Op: "request", Doc: d, Kind: "completion", Pos: refclient.Pos{Line: rapid.IntRange(0, 12).Draw(t, "lapline"), Char: rapid.IntRange(0, 30).Draw(t, "lapchar")}, Wait: 2})
+	}
+	if len(faulty) > 0 && rapid.IntRange(0, 1).Draw(t, "faultypattern") == 0 {
+		// two analyses of a document whose include tree holds such a file (closed, remembered by the
+		// loader) are let go at the same moment
+		for from := 0; from < n; from++ {
+			hit := -1
+			for _, to := range ws.Includes[from] {
+				if faulty[to] {
+					hit = to
+				}
+			}
+			if hit < 0 {
+				continue
+			}
+			c.Pats = append(c.Pats, "pattern:two-analyses-side-by-side-over-a-remembered-file-with-syntax-errors")
+			c.Ops = append(c.Ops,
+				C14Op{Op: "close", Doc: hit, Wait: 2},
+				C14Op{Op: "open", Doc: from, Wait: 2},
+				C14Op{Op: "change", Doc: from, Alt: 1, Hold: true},
+				C14Op{Op: "change", Doc: from, Alt: 2, Hold: true},
+				C14Op{Op: "release", Together: true, Wait: 2},
+				C14Op{Op: "request", Doc: from, Kind: rapid.SampledFrom([]string{"completion", "hover", "references"}).Draw(t, "fpkind"),
+					Pos: refclient.Pos{Line: rapid.IntRange(0, 12).Draw(t, "fpline"), Char: rapid.IntRange(0, 30).Draw(t, "fpchar")}, Wait: 2})
+			break
+		}
+	}
+	if rapid.IntRange(0, 3).Draw(t, "overlappattern") == 0 {
+		// two settings changed one after the other, each by a configuration that names only that setting;
+		// both questions are asked before either answer is applied, the answers come in order
+		c.Pats = append(c.Pats, "pattern:overlapping-refreshes-with-partial-answers")
+		d := rapid.IntRange(0, n-1).Draw(t, "ovdoc")
+		v0 := rapid.IntRange(1, 8).Draw(t, "ovv0")
+		v1 := (v0 + rapid.IntRange(1, 6).Draw(t, "ovv1") - 1) % 8 + 1
+		c.Ops = append(c.Ops,
+			C14Op{Op: "open", Doc: d, Wait: 2},
+			C14Op{Op: "config", Doc: d, Config: map[string]any{"formatting": map[string]any{"indentSize": float64(v0)}, "completion": map[string]any{"maxResults": float64(40)}}, Wait: 2},
+			C14Op{Op: "config", Doc: d, Config: map[string]any{"formatting": map[string]any{"indentSize": float64(v1)}}, Replace: true, PinFirst: true},
+			C14Op{Op: "config", Doc: d, Config: map[string]any{"completion": map[string]any{"maxResults": float64(rapid.IntRange(1, 30).Draw(t, "ovmax"))}}, Replace: true, Wait: 2},
+			C14Op{Op: "request", Doc: d, Kind: "formatting", Wait: 2},
+			C14Op{Op: "request", Doc: d, Kind: "completion", Pos: refclient.Pos{Line: rapid.IntRange(0, 12).Draw(t, "ovline"), Char: rapid.IntRange(0, 30).Draw(t, "ovchar")}, Wait: 2})
 	}
 	nd := rapid.IntRange(0, 12).Draw(t, "ndelays")
 	for i := 0; i < nd; i++ {
